@@ -819,14 +819,32 @@ mod real {
         true
     }
 
+    pub fn wal_config(preset: &str) -> Option<WalDSTConfig> {
+        match preset {
+            "default" => Some(WalDSTConfig::default()),
+            "baseline" => Some(WalDSTConfig::baseline()),
+            "crash_only" => Some(WalDSTConfig::crash_only()),
+            "chaos" => Some(WalDSTConfig::chaos()),
+            // no fsync after a write (EverySecond / No mode), faults on
+            "chaos_nofsync" => Some(WalDSTConfig { fsync_after_write: false, ..WalDSTConfig::chaos() }),
+            // rotation after every entry
+            "chaos_tiny_files" => Some(WalDSTConfig { max_file_size: 17, num_writes: 300, ..WalDSTConfig::chaos() }),
+            _ => None,
+        }
+    }
+
+    /// encoded length of the entry the harness writes for timestamp `ts` (its private
+    /// `make_test_delta`, rebuilt from the public constructors)
+    pub fn wal_entry_len(ts: u64) -> usize {
+        use redis_sim::replication::{LamportClock, ReplicaId, ReplicatedValue, ReplicationDelta};
+        let rid = ReplicaId::new(1);
+        let rv = ReplicatedValue::with_value(SDS::from_str(&format!("val-{}", ts)), LamportClock { time: ts, replica_id: rid });
+        let d = ReplicationDelta::new("key-000123".to_string(), rv, rid);
+        redis_sim::streaming::WalEntry::from_delta(&d, ts).expect("serialize").encode().len()
+    }
+
     pub fn wal(preset: &str, seed: u64, lines: &mut Vec<String>) -> bool {
-        let cfg = match preset {
-            "default" => WalDSTConfig::default(),
-            "baseline" => WalDSTConfig::baseline(),
-            "crash_only" => WalDSTConfig::crash_only(),
-            "chaos" => WalDSTConfig::chaos(),
-            _ => return false,
-        };
+        let Some(cfg) = wal_config(preset) else { return false };
         let mut h = WalDSTHarness::new(seed, cfg);
         let r = h.run();
         lines.push(format!("{:?}", r));
@@ -1130,14 +1148,26 @@ fn cfg_numbers(harness: &str, preset: &str, seed: u64) -> Option<String> {
         let c = real::crdt_config(preset, seed)?;
         return Some(format!("{} {}", c.num_replicas, c.message_drop_prob.to_bits()));
     }
+    if harness == "wal" {
+        let c = real::wal_config(preset)?;
+        let sc = &c.store_config;
+        // `ser`: the encoded length of the entries the harness writes, from the real serializer
+        let l: Vec<String> = [1u64, 10, 100].iter().map(|ts| real::wal_entry_len(*ts).to_string()).collect();
+        return Some(format!(
+            "{} {} {} {} {} {} {} {} {}",
+            c.num_writes, c.max_file_size, sc.write_fail_prob.to_bits(), sc.partial_write_prob.to_bits(), sc.fsync_fail_prob.to_bits(),
+            sc.disk_full_prob.to_bits(), c.simulate_crash as u8, c.fsync_after_write as u8, l.join(" ")
+        ));
+    }
     if harness == "dst" {
         let c = real::dst_config(preset, seed)?;
         // the probability `should_buggify` will read: the real FaultConfig::get of this preset
         let p = c.fault_config.get(faults::process::CRASH);
         return Some(format!(
-            "{} {} {} {} {} {} {} {} {}",
+            "{} {} {} {} {} {} {} {} {} {}",
             c.node_count, p.to_bits(), c.crash_config.enable_buggify_crashes as u8, c.enable_clock_skew as u8,
-            c.max_clock_skew_ms * 2, c.max_clock_drift_ppm * 2, c.crash_config.min_recovery_time_ms, c.crash_config.max_recovery_time_ms, c.max_time_ms
+            c.max_clock_skew_ms * 2, c.max_clock_drift_ppm * 2, c.crash_config.min_recovery_time_ms, c.crash_config.max_recovery_time_ms, c.max_time_ms,
+            crate::cfg::CODE_DST_SORTS_NODES as u8
         ));
     }
     None
@@ -1198,7 +1228,7 @@ const FAMILIES: &[Family] = &[
     Family { name: "partition", presets: &["isolate", "split_brain", "ring", "asymmetric"], ops: 0, modelled: false, quick_presets: 2 },
     Family { name: "streaming", presets: &["moderate", "chaos", "calm", "default"], ops: 150, modelled: false, quick_presets: 2 },
     Family { name: "compaction", presets: &["chaos", "aggressive", "calm", "default"], ops: 120, modelled: false, quick_presets: 2 },
-    Family { name: "wal", presets: &["chaos", "default", "crash_only", "baseline"], ops: 0, modelled: false, quick_presets: 2 },
+    Family { name: "wal", presets: &["chaos", "default", "crash_only", "baseline", "chaos_nofsync", "chaos_tiny_files"], ops: 0, modelled: true, quick_presets: 6 },
     Family { name: "connection", presets: &["pipeline"], ops: 0, modelled: false, quick_presets: 1 },
     Family { name: "scenario", presets: &["buggify", "plain"], ops: 120, modelled: false, quick_presets: 1 },
 ];
@@ -1209,7 +1239,6 @@ fn part_b(a: &Args, out: &mut Out) {
     let seeds: Vec<u64> = if thorough { (a.seed..a.seed + 20).collect() } else { (a.seed..a.seed + 5).collect() };
     let only = std::env::var("C20_ONLY").ok();
     let mut explored: BTreeMap<String, serde_json::Value> = BTreeMap::new();
-    let mut must_agree: Vec<serde_json::Value> = Vec::new();
     for fam in FAMILIES {
         if let Some(o) = &only {
             if !o.split(',').any(|x| x == fam.name) {
@@ -1299,7 +1328,7 @@ fn part_b(a: &Args, out: &mut Out) {
                 out.count(&format!("harness:{}:{}", fam.name, preset));
                 out.count_n(&format!("trace-lines:{}", fam.name), traces[0].lines.len() as u64);
                 let canon = format!("{} {} {} {}", fam.name, preset, seed, ops);
-                out.case(&canon, traces[0].lines.len() > 3);
+                out.case(&canon, traces[0].lines.len() > 3 || fam.name == "wal");
                 if fam.modelled {
                     let cfgn = cfg_numbers(fam.name, preset, seed).expect("cfg numbers");
                     // with an iteration order as input: every process is its own case (its own order)
@@ -1321,12 +1350,6 @@ fn part_b(a: &Args, out: &mut Out) {
                         }
                         let pi = if fam.name == "dst" { format!(" {}", t.pi.iter().map(|x| x.to_string()).collect::<Vec<_>>().join(" ")) } else { String::new() };
                         out.op(format!("RUN {} {} {} {} {}{}", fam.name, preset, seed, ops, cfgn, pi), answer);
-                        if fam.name == "dst" {
-                            // a process-dependent trace is only the KNOWN finding when the model,
-                            // given that process's iteration order, predicts exactly that trace
-                            must_agree.push(json!([out.n_ops(), "C20:trace-differs-across-processes:dst"]));
-                            must_agree.push(json!([out.n_ops(), "C20:trace-differs-in-process:dst"]));
-                        }
                     }
                 }
             }
@@ -1335,7 +1358,6 @@ fn part_b(a: &Args, out: &mut Out) {
     }
     out.extra.insert("harness_runs".into(), json!(explored));
     out.extra.insert("children_per_run".into(), json!(k_children));
-    out.extra.insert("must_agree".into(), json!(must_agree));
 }
 
 pub fn run(a: &Args) {
@@ -1346,5 +1368,5 @@ pub fn run(a: &Args) {
     buggify::set_config(FaultConfig::default());
     let n = out.n_ops() + a.n as usize;
     part_a(a, &mut out, n);
-    out.finish("a kernel script is non-trivial when at least 3 of its ops return a value; a harness run is non-trivial when its trace has more than 3 lines");
+    out.finish("a kernel script is non-trivial when at least 3 of its ops return a value; a harness run is non-trivial when its trace has more than 3 lines (wal: its one-line result struct with 13 numbers)");
 }
